@@ -18,7 +18,7 @@ func HarnessC19RootDomain() {
 	switch vx.Choose("slice", 3) {
 	case 0: // every host
 		host = vx.NondetStringIn("host", hostMax, "ab.-")
-		scheme = []string{"http://", "https://", "//"}[vx.Choose("scheme", 3)]
+		scheme = []string{"http://", "https://", "//", "", "/"}[vx.Choose("scheme", 5)]
 	case 1: // every userinfo
 		host = hostMenu[vx.Choose("hostmenu", len(hostMenu))]
 		if vx.Choose("userform", 2) == 0 {
@@ -37,6 +37,9 @@ func HarnessC19RootDomain() {
 	u := scheme + user + host + sep + tail
 	got := HasRootDomain(u, "a.b")
 	want := host == "a.b" || strings.HasSuffix(host, ".a.b")
+	if scheme == "" || scheme == "/" {
+		want = false // a relative reference has no host at all
+	}
 	// The statement is an "only if": a foreign host is never accepted. (That
 	// an allow-listed host IS accepted is not demanded -- e.g. a host with an
 	// explicit port is rejected by the code -- but at least one accepting path
